@@ -1,4 +1,5 @@
 import Lace.Props.C08
+import Lace.Props.C08Paths
 #print axioms Lace.C08.compile_all_or_nothing
 #print axioms Lace.C08.compile_fail_at
 #print axioms Lace.C08.compile_unwritable
@@ -7,3 +8,18 @@ import Lace.Props.C08
 #print axioms Lace.C08.writeAllOrNothing_spec
 #print axioms Lace.C08.compile_write_fails_at
 #print axioms Lace.C08.in_place_truncates
+#print axioms Lace.C08.compileP_all_or_nothing
+#print axioms Lace.C08.no_stray_entries
+#print axioms Lace.C08.no_new_names
+#print axioms Lace.C08.hard_link_other_name_unchanged
+#print axioms Lace.C08.old_inodes_unchanged
+#print axioms Lace.C08.live_link_preserved
+#print axioms Lace.C08.dangling_link_replaced
+#print axioms Lace.C08.dest_location_regular_file
+#print axioms Lace.C08.compileP_refines_compileFs
+#print axioms Lace.C08.compileP_name_refines_compileFs
+#print axioms Lace.C08.writeAllOrNothingP_spec
+#print axioms Lace.C08.compileP_spec
+#print axioms Lace.C08.Shape.ofPlainDir
+#print axioms Lace.C08.stale_tmp_link_truncates
+#print axioms Lace.C08.symlink_depth_counterexample
